@@ -1012,7 +1012,9 @@ class Transaction(object):
                         witness = rawtx.read(item_size)
                     inputs[n].witnesses.append(witness)
                     if not is_taproot:
-                        s = Script.parse_bytes(witness, strict=strict, is_locking=False)
+                        # Witness items are data (signatures, keys, preimages, scripts), they are only parsed to
+                        # recognise the type of input. An item which is not a well-formed script is no error
+                        s = Script.parse_bytes(witness, strict=False, is_locking=False)
                         if s.script_types == ['p2tr_unlock']:
                             # FIXME: Support Taproot unlocking scripts
                             _logger.warning("Taproot is not supported at the moment, rest of parsing input transaction "
